@@ -222,6 +222,17 @@ Definition mstep (s : mstate) (kind : string) (a : list N) (data : list N) (rl :
              end
     | _ => (0, s)
     end
+  else if String.eqb kind "snapshot" then
+    (* the guest memory the backend is GIVEN (what it sees when notified) is exactly the accepted regions *)
+    match res with
+    | VL l =>
+        if ms_changes s =? 0 then (0, s)
+        else match obs_pairs l with
+             | Some ps => ((if pairs_eqb (sort_pairs ps) (sort_pairs (map (fun r => (g_gpa r, g_size r)) (ms_table s))) then 0 else 13), s)
+             | None => (13, s)
+             end
+    | _ => (0, s)
+    end
   else if String.eqb kind "backend_log" then
     match res with
     | VL [VN upd; VL acked; VL evlog; _] =>
